@@ -285,6 +285,98 @@ def run_e2e_history(acc: Acc, case):
     return fails
 
 
+def run_e2e_concurrent(acc: Acc, case):
+    """A read-only call runs in one task WHILE a valid setter runs in another task on the same inverter object (answers take a
+    few ticks, so they overlap).  The write frames on the wire must be exactly those the setter produces when it runs alone:
+    the reader contributes none."""
+    import asyncio
+    from vlib.vloop import ScriptedPeer, VLoop, World
+    acc.case()
+    cfg = dict(case["cfg"])
+    fam = cfg["family"]
+    tcp = bool(cfg.get("tcp"))
+    acc.nontrivial("HC", fam, cfg["serial"], tcp, case["setter"], case["read"], case["offset"], case.get("keep"), case["delay"])
+
+    def execute(with_reader):
+        inv = siminv.make_inverter(fam, tcp, T=1.0, R=2)
+        inv.set_keep_alive(bool(case.get("keep")))
+        _, sim = siminv.build_direct(dict(cfg), default=0x0101)
+        if fam == "ES":
+            sim.modbus.default = 0x0101
+        peer = ScriptedPeer(siminv.responder_for(inv, sim), [], default=("answer", case["delay"] / 16.0))
+        world = World(peer)
+        loop = VLoop(world, max_time=1e5)
+        marks = {}
+
+        async def setter():
+            await asyncio.sleep(max(0, -case["offset"]) / 16.0)
+            try:
+                await E2E_SETTERS[case["setter"]](inv)
+            except Exception:
+                pass
+
+        async def reader():
+            await asyncio.sleep(max(0, case["offset"]) / 16.0)
+            try:
+                await do_read_call(inv, case["read"], case.get("arg", 3))
+            except Exception:
+                pass
+
+        async def main():
+            await inv.read_device_info()
+            marks["start"] = len(world.tx)
+            await asyncio.gather(setter(), *([reader(), reader()] if with_reader else []))
+
+        out = loop.run(main())
+        loop.idle()
+        loop.shutdown()
+        if out.hang is not None or out.exc is not None:
+            return None, "%r %r" % (out.hang, out.exc)
+        return [(d[2:] if tcp else d) for (t, tid, d, failed) in world.tx[marks["start"]:] if is_write_frame(d, tcp)], None
+
+    solo, err = execute(False)
+    if err:
+        return [("C18|%s|e2e-harness" % fam, "setter alone: " + err, case)]
+    both, err = execute(True)
+    if err:
+        return [("C18|%s|e2e-concurrent-failed" % fam, "setter and reader concurrently: " + err, case)]
+    if both != solo:
+        extra = [w.hex() for w in both if w not in solo] or [w.hex() for w in both]
+        return [("C18|%s|read-call-wrote|concurrent|%s" % (fam, "tcp" if tcp else "udp"),
+                 "%s alone transmits %d write frame(s); with %s() running concurrently on the same object %d write frames go out (%s)" % (
+                     case["setter"], len(solo), case["read"], len(both), extra[:2]), case)]
+    return []
+
+
+def e2e_concurrent_job(job):
+    part, parts = job
+    acc = Acc()
+    cfgs = [{"family": "ET", "serial": b"9010KETU000W0000", "rated_power": 10000, "refuse": [], "battery_mode": 1, "tcp": False},
+            {"family": "ET", "serial": b"9010KETU000W0000", "rated_power": 10000, "refuse": [], "battery_mode": 1, "tcp": True},
+            {"family": "DT", "serial": b"9010KDTU000W0000", "refuse": [], "tcp": True},
+            {"family": "DT", "serial": b"9010KDTU000W0000", "refuse": [], "tcp": False},
+            {"family": "ES", "serial": b"95048ESU000W0000", "firmware": b"2214E"}]
+    i = 0
+    for cfg in cfgs:
+        for setter in E2E_SETTERS:
+            if cfg["family"] == "DT" and setter != "set_grid_export_limit":
+                continue
+            for read in E2E_READS:
+                if cfg["family"] == "DT" and read in ("get_operation_mode", "get_ongrid_battery_dod"):
+                    continue
+                for offset in (-2, 0, 1, 3):
+                    for keep in (False, True):
+                        i += 1
+                        if i % parts != part:
+                            continue
+                        case = {"concurrent": True, "cfg": cfg, "setter": setter, "read": read, "offset": offset, "keep": keep, "delay": 2 + i % 3, "arg": i}
+                        for key, msg, c in run_e2e_concurrent(acc, case):
+                            acc.fail(key, msg, c)
+                        if len(acc.samples) < 1:
+                            acc.sample(case)
+    return acc
+
+
 def e2e_job(job):
     part, parts = job
     acc = Acc()
@@ -519,6 +611,7 @@ def hyp_job(job):
 def run(ctx):
     ctx.shard(read_grid_job, [(p, 16, ctx.quick) for p in range(16)], "read-only API x configurations (every call; ids swept), connect/discover end-to-end")
     ctx.shard(setter_job, [(f, ctx.quick) for f in ("ET", "DT", "ES")], "setters: integer ranges around the valid intervals + in-range control calls")
+    ctx.shard(e2e_concurrent_job, [(p, 16) for p in range(16)], "end-to-end: a read-only call running concurrently with a valid setter on the same object (write frames == the setter's own)")
     ctx.shard(write_then_read_job, [(p, 16) for p in range(16)], "a legitimate write of a small value to every integer setting / via every setter, then read-only calls on the same object")
     ctx.shard(e2e_job, [(p, 16) for p in range(16)], "end-to-end histories: valid setter, then each read-only call over each network fault (retries / reconnects), raw frames classified at the peer")
     n = ctx.pick(2400, 50000)
@@ -526,7 +619,9 @@ def run(ctx):
 
 
 def replay(ctx, case):
-    if "reads" in case:
+    if case.get("concurrent"):
+        _apply(ctx.acc, case, run_e2e_concurrent)
+    elif "reads" in case:
         _apply(ctx.acc, case, run_write_then_read)
     elif "fault" in case:
         _apply(ctx.acc, case, run_e2e_history)
